@@ -44,10 +44,34 @@ var errNF = errors.New("not found")
 type source struct {
 	g     *graph
 	calls int
+	// hold != 0: the first lookup of that relation signals `entered` and then waits --
+	// blockCtx: until the context it was handed is done (a context-honouring slow datasource),
+	// otherwise until `gate` is opened
+	hold     int64
+	blockCtx bool
+	once     bool
+	entered  chan struct{}
+	gate     chan struct{}
 }
 
 func (s *source) RelationHistory(ctx context.Context, id osm.RelationID) (osm.Relations, error) {
 	s.calls++
+	if s.hold != 0 && int64(id) == s.hold && !s.once {
+		s.once = true
+		close(s.entered)
+		if s.blockCtx {
+			select {
+			case <-ctx.Done():
+				return nil, ctx.Err()
+			case <-s.gate: // only opened by the harness when it gives up
+				return nil, errDS
+			}
+		}
+		select {
+		case <-s.gate:
+		case <-time.After(10 * time.Second):
+		}
+	}
 	for _, n := range s.g.nodes {
 		if n.id != int64(id) {
 			continue
@@ -145,6 +169,140 @@ func run(g *graph, reqs []int64, mode, k int) obs {
 		hung++
 		return obs{terminated: false, err: 1}
 	}
+}
+
+// runBlocked: Close() is called while the producer is inside the lookup of relation x, and
+// that lookup only ends when the context it was given is done.
+func runBlocked(g *graph, reqs []int64, x int64) obs {
+	res := make(chan obs, 1)
+	base := runtime.NumGoroutine()
+	src := &source{g: g, hold: x, blockCtx: true, entered: make(chan struct{}), gate: make(chan struct{})}
+	go func() {
+		var o obs
+		ids := make([]osm.RelationID, len(reqs))
+		for i, r := range reqs {
+			ids[i] = osm.RelationID(r)
+		}
+		ord := annotate.NewChildFirstOrdering(context.Background(), ids, src)
+		consumed := make(chan struct{})
+		go func() {
+			for ord.Next() {
+				o.seq = append(o.seq, int64(ord.RelationID()))
+			}
+			close(consumed)
+		}()
+		select {
+		case <-src.entered:
+		case <-consumed: // x was never looked up
+		case <-time.After(2 * time.Second):
+		}
+		ord.Close()
+		<-consumed
+		if ord.Err() != nil {
+			o.err = 1
+		}
+		res <- o
+	}()
+	select {
+	case o := <-res:
+		deadline := time.Now().Add(2 * time.Second)
+		for runtime.NumGoroutine() > base && time.Now().Before(deadline) {
+			time.Sleep(50 * time.Microsecond)
+		}
+		o.terminated = runtime.NumGoroutine() <= base
+		return o
+	case <-time.After(2 * time.Second):
+		hung++
+		close(src.gate) // let the leaked goroutines go
+		return obs{terminated: false, err: 1}
+	}
+}
+
+// runPair: two orderings alive at once. A is suspended inside the lookup of relation holdA,
+// B is created and consumed completely meanwhile, then A continues. Both are full runs.
+func runPair(gA *graph, reqsA []int64, holdA int64, gB *graph, reqsB []int64) (obs, obs) {
+	type both struct{ a, b obs }
+	res := make(chan both, 1)
+	base := runtime.NumGoroutine()
+	srcA := &source{g: gA, hold: holdA, entered: make(chan struct{}), gate: make(chan struct{})}
+	full := func(ord *annotate.ChildFirstOrdering) obs {
+		var o obs
+		for ord.Next() {
+			o.seq = append(o.seq, int64(ord.RelationID()))
+			if len(o.seq) > 1000 {
+				break
+			}
+		}
+		switch err := ord.Err(); {
+		case err == nil:
+		case err == errDS:
+			o.err = 2
+		default:
+			o.err = 1
+		}
+		ord.Close()
+		return o
+	}
+	toIDs := func(l []int64) []osm.RelationID {
+		ids := make([]osm.RelationID, len(l))
+		for i, r := range l {
+			ids[i] = osm.RelationID(r)
+		}
+		return ids
+	}
+	go func() {
+		a := annotate.NewChildFirstOrdering(context.Background(), toIDs(reqsA), srcA)
+		select {
+		case <-srcA.entered:
+		case <-time.After(300 * time.Millisecond): // holdA is never looked up before the first send
+		}
+		b := annotate.NewChildFirstOrdering(context.Background(), toIDs(reqsB), &source{g: gB})
+		ob := full(b)
+		close(srcA.gate)
+		oa := full(a)
+		res <- both{oa, ob}
+	}()
+	select {
+	case r := <-res:
+		deadline := time.Now().Add(2 * time.Second)
+		for runtime.NumGoroutine() > base && time.Now().Before(deadline) {
+			time.Sleep(50 * time.Microsecond)
+		}
+		ok := runtime.NumGoroutine() <= base
+		r.a.terminated, r.b.terminated = ok, ok
+		return r.a, r.b
+	case <-time.After(4 * time.Second):
+		hung++
+		return obs{err: 1}, obs{err: 1}
+	}
+}
+
+// genDeep: acyclic graphs nested far deeper than any fixed recursion limit one might think of
+func genDeep(rng *rand.Rand) (*graph, []int64) {
+	n := 110 + rng.Intn(70)
+	g := &graph{class: "deep-chain"}
+	dag := rng.Intn(2) == 0
+	if dag {
+		g.class = "deep-dag"
+	}
+	for i := 1; i <= n; i++ {
+		nd := node{id: int64(i)}
+		var ms []member
+		if i < n {
+			ms = append(ms, member{true, int64(i + 1)})
+		}
+		if dag && i+2 <= n && rng.Intn(2) == 0 {
+			ms = append(ms, member{true, int64(i + 2)})
+		}
+		nd.versions = [][]member{ms}
+		g.nodes = append(g.nodes, nd)
+	}
+	reqs := []int64{1}
+	for k := 0; k < 6; k++ {
+		reqs = append(reqs, int64(95+rng.Intn(n-94)))
+	}
+	reqs = append(reqs, int64(n), 101, 100)
+	return g, reqs
 }
 
 func (g *graph) find(id int64) *node {
@@ -316,7 +474,16 @@ func genReqs(rng *rand.Rand, g *graph) []int64 {
 }
 
 func mkCase(g *graph, reqs []int64, mode, k int) *wire.Case {
-	o := run(g, reqs, mode, k)
+	var o obs
+	if mode == 3 {
+		o = runBlocked(g, reqs, int64(k))
+	} else {
+		o = run(g, reqs, mode, k)
+	}
+	return mkCaseObs(g, reqs, mode, k, o)
+}
+
+func mkCaseObs(g *graph, reqs []int64, mode, k int, o obs) *wire.Case {
 	c := &wire.Case{Class: fmt.Sprintf("%s/mode%d", g.class, mode)}
 	c.Int(1).Len(len(g.nodes))
 	var dn []interface{}
@@ -340,7 +507,7 @@ func mkCase(g *graph, reqs []int64, mode, k int) *wire.Case {
 	}
 	c.Ints(reqs).Int(int64(mode)).Int(int64(k))
 	c.Ints(o.seq).Int(int64(o.err)).Bool(o.terminated)
-	c.Desc = map[string]interface{}{"relations": dn, "requested": reqs, "mode": []string{"run to the end", "Close after k Next", "cancel after k Next"}[mode], "k": k,
+	c.Desc = map[string]interface{}{"relations": dn, "requested": reqs, "mode": []string{"run to the end", "Close after k Next", "cancel after k Next", "Close while the datasource is inside the lookup of relation k (it returns only when its context is done)"}[mode], "k": k,
 		"emitted": o.seq, "err_class": o.err, "terminated": o.terminated}
 	c.OracleFail = oracle(g, reqs, mode, o)
 	c.Trivial = len(g.nodes) < 2
@@ -376,7 +543,7 @@ func main() {
 	a := wire.ParseArgs()
 	rng := wire.Rng(a.Seed)
 	wr := wire.NewWriter("C14", a.Seed, a.Tier)
-	wr.Rule = "random relation graphs of 1..12 relations (DAGs, chains, diamonds, cycles, self loops, references to relations without history, several versions with different members, way/node members carrying relation numbers, occasionally a failing datasource) x request lists in random order with duplicates and unknown ids x {run to the end, Close after k Next for every k, context cancel after k Next}; the goroutine must be gone within a deadline. distinct = distinct token streams; one-relation graphs are trivial."
+	wr.Rule = "random relation graphs of 1..12 relations (DAGs, chains, diamonds, cycles, self loops, references to relations without history, several versions with different members, way/node members carrying relation numbers, occasionally a failing datasource) x request lists in random order with duplicates and unknown ids x {run to the end, Close after k Next for every k, context cancel after k Next, Close while a context-honouring datasource is inside a lookup}; pairs of orderings alive at once (one suspended inside a lookup while the other runs); acyclic chains and DAGs nested 110-180 levels deep with the deep ids requested too; the goroutine must be gone within a deadline. distinct = distinct token streams; one-relation graphs are trivial."
 	ngraphs := 170
 	if a.Tier == "thorough" {
 		ngraphs = 4000
@@ -414,6 +581,61 @@ func main() {
 				wr.Add(mkCase(g, reqs, 2, k))
 			}
 		}
+	}
+	// Close during a slow, context-honouring lookup
+	for i := 0; i < ngraphs/3 && hung < 3; i++ {
+		g := genGraph(rng)
+		reqs := genReqs(rng, g)
+		var cand []int64
+		for _, n := range g.nodes {
+			if n.kind == 0 {
+				cand = append(cand, n.id)
+			}
+		}
+		if len(cand) == 0 {
+			continue
+		}
+		g.class += "/close-in-lookup"
+		wr.Add(mkCase(g, reqs, 3, int(cand[rng.Intn(len(cand))])))
+	}
+	// two orderings alive at once
+	for i := 0; i < ngraphs/3 && hung < 3; i++ {
+		gA, gB := genGraph(rng), genGraph(rng)
+		if i%4 == 0 {
+			gA = &graph{class: "cycle2", nodes: []node{{id: 1, versions: [][]member{{{true, 2}}}}, {id: 2, versions: [][]member{{{true, 1}}}}}}
+		}
+		reqsA, reqsB := genReqs(rng, gA), genReqs(rng, gB)
+		if i%4 == 0 {
+			reqsA = []int64{1, 2}
+		}
+		var cand []int64
+		for _, n := range gA.nodes {
+			if n.kind == 0 {
+				cand = append(cand, n.id)
+			}
+		}
+		if len(cand) == 0 || len(reqsA) == 0 {
+			continue
+		}
+		hold := cand[rng.Intn(len(cand))]
+		if i%4 == 0 {
+			hold = 2
+		}
+		oa, ob := runPair(gA, reqsA, hold, gB, reqsB)
+		gA.class += "/pair-suspended"
+		gB.class += "/pair-other"
+		wr.Add(mkCaseObs(gA, reqsA, 0, 0, oa))
+		wr.Add(mkCaseObs(gB, reqsB, 0, 0, ob))
+	}
+	// deep nesting
+	ndeep := 3
+	if a.Tier == "thorough" {
+		ndeep = 40
+	}
+	for i := 0; i < ndeep && hung < 3; i++ {
+		g, reqs := genDeep(rng)
+		wr.Add(mkCase(g, reqs, 0, 0))
+		wr.Count("deep")
 	}
 	// canaries
 	plant := func(i int, f func(c *wire.Case)) {
